@@ -573,10 +573,8 @@ class RegionsSelector(Model):
 
         # Create output arrays and set any pixels not within regions to
         # "undefined_transform_value"
-        no_trans_ind = (rids == self.label_mapper.no_label).nonzero()
-        outputs = [np.empty(rids.shape) for n in range(self.n_outputs)]
-        for out in outputs:
-            out[no_trans_ind] = self.undefined_transform_value
+        outputs = [np.full(rids.shape, self.undefined_transform_value, dtype=float)
+                   for n in range(self.n_outputs)]
 
         # Compute the transformations
         args = [a.flatten() for a in args]
@@ -589,8 +587,8 @@ class RegionsSelector(Model):
                 result = self._selector[rid](*inputs)
             else:
                 # If there's no transform for a label, return np.nan
-                result = [np.empty(inputs[0].shape) +
-                          self._undefined_transform_value for i in range(self.n_outputs)]
+                result = [np.full(inputs[0].shape, self._undefined_transform_value, dtype=float)
+                          for i in range(self.n_outputs)]
             for j in range(self.n_outputs):
                 outputs[j][ind] = result[j]
         return outputs
